@@ -171,7 +171,21 @@ def process(template_path, repo, vacuity=False, verif_root=None, assume_mode=Fal
                 emit("pub broadcast axiom fn %s() ensures (#[trigger] b\"%s\"@) == seq![%s];" % (
                     nm, esc, ", ".join("0x%02Xu8" % b for b in lit.encode("utf-8"))), ("spec", trel, i + 1, None))
             emit("pub broadcast group group_bytelits { %s } }" % ", ".join(names), ("spec", trel, i + 1, None))
-            emit("pub use bytelits::*; broadcast use group_bytelits;", ("spec", trel, i + 1, None))
+            emit("pub use bytelits::*;", ("spec", trel, i + 1, None))
+            i += 1
+            continue
+        if s.startswith("//@strlits "):
+            # mechanically generated facts "the literal "..." has these UTF-8 bytes"
+            lits = json.loads("[" + s.split(None, 1)[1] + "]")
+            names = []
+            emit("pub mod strlits { use vstd::prelude::*; use vstd::string::StringSliceAdditionalSpecFns;", ("spec", trel, i + 1, None))
+            for k, lit in enumerate(lits):
+                nm = "axiom_strlit_%d_%s" % (k, re.sub(r"[^A-Za-z0-9]", "_", lit))
+                names.append(nm)
+                emit("pub broadcast axiom fn %s() ensures (#[trigger] (%s).spec_bytes()) == seq![%s];" % (
+                    nm, json.dumps(lit), ", ".join("0x%02Xu8" % b for b in lit.encode("utf-8"))), ("spec", trel, i + 1, None))
+            emit("pub broadcast group group_strlits { %s } }" % ", ".join(names), ("spec", trel, i + 1, None))
+            emit("pub use strlits::*;", ("spec", trel, i + 1, None))
             i += 1
             continue
         if s.startswith("//@property"):
@@ -311,7 +325,7 @@ def _extract_item(unit, out, repo, rel, sel, subs, trel, vacuity, assume_mode=Fa
                 raise AnchorLost("rewrite %s in %s: expected %d occurrences of %r, found %d" % (rule, sel, cnt, frm, len(found)))
             for p in found:
                 repls.append((p, p + len(frm), to, tl, rule, frm))
-        elif kw == "fields":
+        elif kw in ("fields", "variants"):
             pass
         elif kw in ("loop-end", "before-loop", "after-loop", "loop-start"):
             _lint_ghost(unit, pl, trel, tl)
@@ -384,6 +398,20 @@ def _extract_item(unit, out, repo, rel, sel, subs, trel, vacuity, assume_mode=Fa
     if vacuity and has_spec and not external and "novacuity" not in opts and item.kind == "fn":
         edits.append((item.body_open + 1, 1, "\n/*VACUITY:%s*/ proof { assert(false); }\n" % label, 0))
 
+    if item.kind == "enum" and "variants" in opts:
+        want = []
+        for kw, args, pl, tl in subs:
+            if kw == "variants":
+                want += args.split()
+                for l in pl:
+                    want += l.split()
+        text = _project_enum(sf, item, want, sel)
+        unit.dropped.append("enum %s: projection keeps variants %s" % (item.name, " ".join(want)))
+        pre = "".join(txt for off, pr, txt, tl in edits if off == start)
+        for k, l in enumerate((pre + text).split("\n")):
+            out.append((l, ("repo", rel, sf.line_of(item.start), label)))
+        return
+
     if item.kind == "struct" and "fields" in opts:
         fields = []
         for kw, args, pl, tl in subs:
@@ -393,7 +421,8 @@ def _extract_item(unit, out, repo, rel, sel, subs, trel, vacuity, assume_mode=Fa
                     fields += l.split()
         text = _project_struct(sf, item, fields, sel)
         unit.dropped.append("struct %s: projection keeps fields %s" % (item.name, " ".join(fields)))
-        for k, l in enumerate(text.split("\n")):
+        pre = "".join(txt for off, pr, txt, tl in edits if off == start)
+        for k, l in enumerate((pre + text).split("\n")):
             out.append((l, ("repo", rel, sf.line_of(item.start), label)))
         return
 
@@ -518,6 +547,38 @@ def _find_ret(sf, item, sel):
         j += 1
     re_ = ct[j - 1].end
     return rs, re_
+
+
+def _project_enum(sf, item, want, sel):
+    """keep only the named variants of an enum (verbatim text, inner attributes dropped)"""
+    ct = sf.ct
+    src = sf.text
+    lo = [k for k in range(item.tok_lo, item.tok_hi) if ct[k].start == item.body_open][0]
+    hi = item.tok_hi - 1
+    found = {}
+    k = lo + 1
+    while k < hi:
+        while ct[k].text == "#":
+            k = rustlex.match_close(ct, k + 1) + 1
+        vstart = k
+        name = ct[k].text
+        j = k + 1
+        while j < hi and not (ct[j].kind == "punct" and ct[j].text == ","):
+            if ct[j].kind == "punct" and ct[j].text in rustlex.OPEN:
+                j = rustlex.match_close(ct, j)
+            j += 1
+        # strip attributes inside the variant body
+        text = src[ct[vstart].start:ct[j - 1].end]
+        text = re.sub(r"#\[[^\]]*\]\s*", "", text)
+        found[name] = text
+        k = j + 1
+    lines = ["pub " + item.header.rstrip() + " {"] if not item.header.startswith("pub") else [item.header.rstrip() + " {"]
+    for v in want:
+        if v not in found:
+            raise AnchorLost("variant %s of %s not found" % (v, sel))
+        lines.append("    " + found[v] + ",")
+    lines.append("}")
+    return "\n".join(lines)
 
 
 def _project_struct(sf, item, fields, sel):
